@@ -233,6 +233,7 @@ async fn scenario(prop: u32) {
 	// runs with preemption points (hook H8, run parameter `preempt`)
 	let preempt_run = rt::param("preempt").is_some();
 	let mut eager: Option<(usize, String)> = None;
+	let mut eager_resub: Option<(usize, String)> = None;
 	for step in &steps {
 		k += 1;
 		match step {
@@ -284,11 +285,40 @@ async fn scenario(prop: u32) {
 					let pending = !ctl.events.lock().unwrap().iter().any(|e| e.what == "accept");
 					let cmd = draw_cmd(*cmd, pending, &mut payload, clogged_mode);
 					let accepting = matches!(cmd, SubCmd::Accept | SubCmd::AcceptTimeout(_));
+					let rejecting = matches!(cmd, SubCmd::Reject);
 					let _ = ctl.cmd.send(cmd);
 					if preempt_run && accepting && rt::chance("eager_unsubscribe", 1, 2) {
 						eager = Some((ctl.conn, ctl.sub_id.clone()));
 					}
+					if preempt_run && rejecting && rt::chance("eager_resubscribe", 1, 2) {
+						eager_resub = subscribe_k(&ctl.params).map(|k| (ctl.conn, format!("s{k}")));
+					}
 				}
+				}
+				// a client that subscribes again the moment it holds the rejection of its subscribe call
+				if let Some((c, rejected_call)) = eager_resub.take() {
+					let mut seen = false;
+					for round in 0..60 {
+						seen = conns[c].frames.lock().unwrap().iter().any(|f| f.v.get("id").and_then(|i| i.as_str()) == Some(rejected_call.as_str()) && f.v.get("error").is_some());
+						if seen {
+							break;
+						}
+						if round % 12 == 11 {
+							tokio::time::sleep(Duration::from_millis(1)).await;
+						} else {
+							rt::yield_n(1).await;
+						}
+					}
+					if let (true, Some(tx)) = (seen, conns[c].tx.as_mut()) {
+						rt::probe("eager_resubscribe");
+						k += 1;
+						let call_id = format!("s{k}");
+						let st = rt::event("dir-subscribe", format!("c{c} {call_id} (eager, after the rejection of {rejected_call})"));
+						let msg = format!("{{\"jsonrpc\":\"2.0\",\"id\":\"{call_id}\",\"method\":\"sub\",\"params\":[{k}]}}");
+						if matches!(tokio::time::timeout(Duration::from_millis(200), world::ws_send(tx, msg.as_bytes(), false)).await, Ok(Ok(()))) {
+							sub_calls.push(SubCall { conn: c, call_id, sent_stamp: st });
+						}
+					}
 				}
 				// a client that unsubscribes the moment it holds the subscription id: wait (a bounded while) for the
 				// response that carries the id, then send the unsubscribe at once
@@ -691,8 +721,15 @@ fn check_c06(v: &View) {
 		for st in &starts {
 			// admitted earlier and not yet released at st.stamp
 			let earlier: Vec<&&world::MwEvent> = starts.iter().filter(|o| o.stamp < st.stamp).collect();
+			// `in_use`: slots that may still be taken; `in_use_for_sure`: slots that are certainly taken. They differ for a
+			// subscription that is being rejected: the handler lets go of the pending sink when it calls `reject()`, and
+			// the slot is back at the latest when `reject()` has returned - or when the peer sent this subscribe call
+			// holding the rejection in its hands, whichever is earlier.
 			let mut in_use = 0u32;
+			let mut in_use_for_sure = 0u32;
+			let mut rejection_decides = false;
 			let mut uncertain = false;
+			let st_sent = v.sub_calls.iter().find(|c| c.conn == ci && format!("\"{}\"", c.call_id) == st.id).map(|c| c.sent_stamp);
 			for o in earlier {
 				let refused = v.mw.iter().find(|e| e.kind == "call-end" && e.conn == ci && e.id == o.id).is_some_and(|e| e.response.as_deref().unwrap_or("").contains("-32006"));
 				if refused {
@@ -700,10 +737,20 @@ fn check_c06(v: &View) {
 				}
 				// admitted: its handler registered itself under the unique k of the subscribe call
 				match v.reg.iter().find(|s| v.conn_of(s) == ci && subscribe_k(&s.params) == call_k(&o.id)) {
-					Some(s) => match *s.released.lock().unwrap() {
-						Some(r) if r < st.stamp => {}
-						_ => in_use += 1,
-					},
+					Some(s) => {
+						let released = *s.released.lock().unwrap();
+						let reject_called = s.events.lock().unwrap().iter().find(|e| e.what == "reject").map(|e| e.invoked);
+						let rejection_held = reject_called.is_some()
+							&& st_sent.is_some_and(|sent| v.frames[ci].iter().any(|f| f.stamp < sent && f.v.get("error").is_some() && f.v.get("id").and_then(|i| i.as_str()).is_some_and(|i| format!("\"{i}\"") == o.id)));
+						if !(released.is_some_and(|r| r < st.stamp) || rejection_held) {
+							in_use += 1;
+						} else if !released.is_some_and(|r| r < st.stamp) {
+							rejection_decides = true;
+						}
+						if !(released.is_some_and(|r| r < st.stamp) || reject_called.is_some_and(|r| r < st.stamp)) {
+							in_use_for_sure += 1;
+						}
+					}
 					None => uncertain = true,
 				}
 			}
@@ -714,11 +761,12 @@ fn check_c06(v: &View) {
 			let handler_ran = v.reg.iter().any(|s| v.conn_of(s) == ci && subscribe_k(&s.params) == call_k(&st.id));
 			let refused = end.is_some_and(|e| e.response.as_deref().unwrap_or("").contains("-32006"));
 			let expect_refuse = in_use >= v.cap;
-			if expect_refuse && handler_ran {
-				rt::violate(P, "cap-exceeded", format!("cap{}", v.cap), format!("connection {ci}: subscribe {} was admitted although {in_use} subscriptions (cap {}) were pending or active", st.id, v.cap));
+			if in_use_for_sure >= v.cap && handler_ran {
+				rt::violate(P, "cap-exceeded", format!("cap{}", v.cap), format!("connection {ci}: subscribe {} was admitted although {in_use_for_sure} subscriptions (cap {}) were pending or active", st.id, v.cap));
 			}
 			if !expect_refuse && refused {
-				rt::violate(P, "slot-not-returned", format!("cap{}", v.cap), format!("connection {ci}: subscribe {} was refused with -32006 although only {in_use} of {} slots were in use", st.id, v.cap));
+				let sig = if rejection_decides { format!("cap{}:after-rejection-seen", v.cap) } else { format!("cap{}", v.cap) };
+				rt::violate(P, "slot-not-returned", sig, format!("connection {ci}: subscribe {} was refused with -32006 although only {in_use} of {} slots were in use", st.id, v.cap));
 			}
 			if expect_refuse || in_use > 0 {
 				nontrivial = true;
